@@ -582,6 +582,35 @@ def element_type(c):
     return None
 
 
+def c18a_constfree(ctx, tu):
+    """Which printer a value gets is decided on its type without top-level const (print() takes `T const&` and deduces
+    T): user specialisations of printer<X> and the pair / tuple streamers are written for X, not for const X.  No
+    instantiation of print / printer / streamer in the units has a top-level-const value type - in particular not
+    for the reference_wrapper<const X> in which the arguments of a mock call arrive."""
+    n = 0
+    seen = set()
+    for fn in tu.fns.values():
+        m = re.match(r"trompeloeil::(print|printer|streamer)<(.*)$", fn.q)
+        if not m or not fn.is_lib:
+            continue
+        a = _targs18(fn.q[fn.q.index("<"):])
+        if not a:
+            continue
+        key = (m.group(1), a[0])
+        if key in seen:
+            continue
+        seen.add(key)
+        n += 1
+        bad = re.match(r"^const [^*]*$", a[0]) is not None and "reference_wrapper" not in a[0]
+        if bad:
+            ctx.ob("C18.a.const", "%s<%s>" % (m.group(1), erase(a[0])), False, pattern=fn.pat, unit=tu.name, inst=fn.q,
+                   detail="the printer is selected for the const-qualified type %s: a user printer<X> / the pair and tuple "
+                   "printers do not apply to it, and the value is hex-dumped or streamed instead" % a[0])
+    ctx.ob("C18.a.const", "printer selection on the unqualified value type", True, pattern="include/trompeloeil/mock.hpp",
+           unit=tu.name, detail="")
+    return n
+
+
 def c18a_nested(ctx, tu):
     """Nested collections are printed element-wise: what the collection printer hands to print() for each element has
     the collection's ELEMENT TYPE - not a decayed (array -> pointer), sliced or converted one - so an inner array /
@@ -681,14 +710,17 @@ def run(ctx):
     units = []
     n = 0
     n_nested = 0
+    n_const = 0
     for tu in ctx.units(lambda n: n.startswith("print") or n.startswith("repo_ct")):
         n += c18a(ctx, tu)
         n_nested += c18a_nested(ctx, tu)
+        n_const += c18a_constfree(ctx, tu)
         c18b(ctx, tu)
         n += c18c(ctx, tu)
         c18d(ctx, tu)
         units.append({"unit": tu.name, "functions": len(tu.fns)})
     ctx.floor("C18 print/streamer instantiations", n, 30)
     ctx.floor("C18.a.nested collection element types", n_nested, 10)
+    ctx.floor("C18.a.const print / printer / streamer instantiations examined", n_const, 60)
     c18e(ctx)
     ctx.extra["units"] = units
